@@ -247,6 +247,42 @@ func (cr *concRun) doOp(c string, op Op, body []byte, slowBody *gatedBody, slowW
 	case "Initiate":
 		method = "POST"
 		q.Set("uploads", "")
+	case "PutVersioning":
+		method = "PUT"
+		path = "/" + concBucket
+		q.Set("versioning", "")
+		bb := []byte("<VersioningConfiguration><Status>" + op.S("status") + "</Status></VersioningConfiguration>")
+		hdr.Set("Content-Length", fmt.Sprint(len(bb)))
+		clen = int64(len(bb))
+		rd = bytes.NewReader(bb)
+	case "GetVersioning":
+		path = "/" + concBucket
+		q.Set("versioning", "")
+	case "DeleteObjectVersion":
+		method = "DELETE"
+		q.Set("versionId", op.S("vid"))
+	case "HeadObjectVersion":
+		method = "HEAD"
+		q.Set("versionId", op.S("vid"))
+	case "DeleteMulti":
+		method = "POST"
+		path = "/" + concBucket
+		q.Set("delete", "")
+		var sb strings.Builder
+		sb.WriteString("<Delete>")
+		for _, o := range op.List("objs") {
+			oo := Op(o.(map[string]interface{}))
+			sb.WriteString("<Object><Key>" + toBytes(oo["k"]) + "</Key>")
+			if v := oo.S("vid"); v != "" {
+				sb.WriteString("<VersionId>" + v + "</VersionId>")
+			}
+			sb.WriteString("</Object>")
+		}
+		sb.WriteString("</Delete>")
+		bb := []byte(sb.String())
+		hdr.Set("Content-Length", fmt.Sprint(len(bb)))
+		clen = int64(len(bb))
+		rd = bytes.NewReader(bb)
 	}
 	cr.serve(method, path, q, hdr, rd, clen, w)
 	resSeq := cr.next()
@@ -298,6 +334,17 @@ func (cr *concRun) doOp(c string, op Op, body []byte, slowBody *gatedBody, slowW
 			var cp xCopyResult
 			xml.Unmarshal(out, &cp)
 			r["xetag"] = cr.atomOfETag(cp.ETag)
+		case "GetVersioning":
+			var vc xVersioning
+			xml.Unmarshal(out, &vc)
+			r["status"] = vc.Status
+		case "DeleteObjectVersion":
+			if v := w.hdr.Get("x-amz-version-id"); v != "" {
+				r["vid"] = v
+			}
+		case "HeadObjectVersion":
+			r["etag"] = cr.atomOfETag(w.hdr.Get("ETag"))
+			r["vid"] = w.hdr.Get("x-amz-version-id")
 		case "Initiate":
 			var in xInitiate
 			xml.Unmarshal(out, &in)
@@ -470,6 +517,78 @@ func freeRun(sysName string, versioned bool, clients, m int, nkeys int, seed int
 		}(ci)
 	}
 	wg.Wait()
+	cr.record(cr.finalSnapshot(keys))
+	return cr.sorted(), nil
+}
+
+// seqRun: one client, a long random history over three keys incl. versioning
+// status changes, version deletes and multi-deletes: a sequential trace
+// validated by the same specification (TraceConc with a single client).
+func seqRun(sysName string, m int, seed int64) ([]cEvent, error) {
+	cr, reset, err := newConcRun(sysName, false, seed, false)
+	if err != nil {
+		return nil, err
+	}
+	defer cr.sys.Close()
+	reset.Scenario = "sequential"
+	cr.record(reset)
+	keys := []string{"k1", "k2", "d/k3"}
+	r := rand.New(rand.NewSource(seed * 104729))
+	versioned := cr.sys.Versioned()
+	known := map[string][]string{}
+	for i := 0; i < m; i++ {
+		k := keys[r.Intn(len(keys))]
+		kb := keyBytes(k)
+		x := r.Intn(100)
+		switch {
+		case x < 30:
+			name := fmt.Sprintf("s%d", i)
+			body := cr.atom(name, r)
+			op := Op{"op": "PutObject", "b": concBucket, "k": kb, "body": []interface{}{name}, "meta": []interface{}{}, "vid": ""}
+			cr.doOp("1", op, body, nil, nil)
+			if v := op.S("vid"); v != "" {
+				known[k] = append(known[k], v)
+			}
+		case x < 45:
+			cr.doOp("1", Op{"op": "GetObject", "b": concBucket, "k": kb}, nil, nil, nil)
+		case x < 50:
+			cr.doOp("1", Op{"op": "HeadObject", "b": concBucket, "k": kb}, nil, nil, nil)
+		case x < 60:
+			op := Op{"op": "DeleteObject", "b": concBucket, "k": kb, "vid": ""}
+			cr.doOp("1", op, nil, nil, nil)
+			if v := op.S("vid"); v != "" {
+				known[k] = append(known[k], v)
+			}
+		case x < 66:
+			cr.doOp("1", Op{"op": "ListObjects", "b": concBucket, "v2": false, "prefix": []interface{}{}, "delim": []interface{}{},
+				"max": float64(0), "marker": []interface{}{}, "hasMarker": false}, nil, nil, nil)
+		case x < 72:
+			sk := keys[r.Intn(len(keys))]
+			cr.doOp("1", Op{"op": "CopyObject", "b": concBucket, "k": kb, "sb": concBucket, "sk": keyBytes(sk), "meta": []interface{}{}}, nil, nil, nil)
+		case x < 78 && versioned:
+			st := []string{"Enabled", "Suspended"}[r.Intn(2)]
+			cr.doOp("1", Op{"op": "PutVersioning", "b": concBucket, "status": st}, nil, nil, nil)
+		case x < 80 && versioned:
+			cr.doOp("1", Op{"op": "GetVersioning", "b": concBucket}, nil, nil, nil)
+		case x < 88 && versioned && len(known[k]) > 0:
+			v := known[k][r.Intn(len(known[k]))]
+			cr.doOp("1", Op{"op": "DeleteObjectVersion", "b": concBucket, "k": kb, "vid": v}, nil, nil, nil)
+		case x < 94 && versioned && len(known[k]) > 0:
+			v := known[k][r.Intn(len(known[k]))]
+			if r.Intn(2) == 0 {
+				cr.doOp("1", Op{"op": "GetObjectVersion", "b": concBucket, "k": kb, "vid": v}, nil, nil, nil)
+			} else {
+				cr.doOp("1", Op{"op": "HeadObjectVersion", "b": concBucket, "k": kb, "vid": v}, nil, nil, nil)
+			}
+		default:
+			objs := []interface{}{map[string]interface{}{"k": kb, "vid": ""}}
+			k2 := keys[r.Intn(len(keys))]
+			if k2 != k {
+				objs = append(objs, map[string]interface{}{"k": keyBytes(k2), "vid": ""})
+			}
+			cr.doOp("1", Op{"op": "DeleteMulti", "b": concBucket, "objs": objs}, nil, nil, nil)
+		}
+	}
 	cr.record(cr.finalSnapshot(keys))
 	return cr.sorted(), nil
 }
@@ -672,6 +791,7 @@ func cmdConc(args []string) {
 	nkeys := fs.Int("keys", 2, "keys")
 	trace := fs.String("trace", "", "NDJSON output")
 	gated := fs.Bool("gated", true, "include the slow uploader / slow reader scenarios")
+	seqOps := fs.Int("seq", 0, "instead of concurrent runs: sequential random histories of this many operations")
 	out := fs.String("out", "", "summary")
 	fs.Parse(args)
 	tf, err := os.Create(*trace)
@@ -694,6 +814,17 @@ func cmdConc(args []string) {
 		}
 	}
 	for _, sysName := range strings.Split(*systems, ",") {
+		if *seqOps > 0 {
+			for i := 0; i < *runs; i++ {
+				evs, err := seqRun(sysName, *seqOps, *seed*977+int64(i))
+				if err != nil {
+					problems = append(problems, err.Error())
+					continue
+				}
+				write(evs, sysName)
+			}
+			continue
+		}
 		for _, cs := range strings.Split(*clientsList, ",") {
 			var clients int
 			fmt.Sscan(cs, &clients)
